@@ -411,3 +411,139 @@ Proof.
   pose proof (nseg_text s0 G0) as H0. rewrite E0 in H0. cbn [fst snd] in H0. rewrite H0. f_equal.
   clear E. induction G as [|sg ss' Hg _ IH]; [reflexivity|]. cbn [map flat_map]. rewrite IH. now rewrite (nseg_text sg Hg).
 Qed.
+
+(* ------------------------------------------------------------------ norm: well-formed *)
+Lemma nrel_ok r extra : lrel_ok r = true -> ws_ok extra = true -> wf_rel (nrel r extra) = true.
+Proof.
+  unfold lrel_ok, wf_rel, nrel. intros H He. andb_hyps. cbn [r_name r_qual r_ver r_archs r_profs r_trail]. andb_goal; auto.
+  - destruct (l_qual r) as [[w q]|]; [|reflexivity]. cbn [inner_ok option_map opt_ok fst snd] in *. andb_hyps.
+    match goal with Hq : qual_in_ok q = true |- _ => unfold qual_in_ok in Hq end. andb_hyps.
+    unfold qual_ok. cbn [q_ws0 q_ws1 q_name]. rewrite wstext_ok by assumption. now andb_goal.
+  - destruct (l_ver r) as [[w v]|]; [|reflexivity]. cbn [inner_ok option_map opt_ok fst snd] in *. andb_hyps.
+    match goal with Hq : vclause_in_ok v = true |- _ => unfold vclause_in_ok in Hq end. andb_hyps.
+    unfold vclause_ok. cbn [v_ws0 v_ws1 v_ws2 v_ws3 v_epoch v_ver v_more]. rewrite wstext_ok by assumption. now andb_goal.
+  - destruct (l_archs r) as [[w g]|]; [|reflexivity]. cbn [inner_ok option_map opt_ok fst snd] in *. andb_hyps.
+    match goal with Hq : group_in_ok g = true |- _ => unfold group_in_ok in Hq end. andb_hyps.
+    unfold group_ok. cbn [g_ws0 g_terms g_ws1]. rewrite wstext_ok by assumption. now andb_goal.
+  - rewrite forallb_forall in *. intros x Hx. apply in_map_iff in Hx as ([w g] & <- & Hin).
+    match goal with Hq : forall x, In x (l_profs r) -> _ |- _ => specialize (Hq _ Hin) end. cbn [fst snd] in *.
+    andb_hyps. match goal with Hq : group_in_ok g = true |- _ => unfold group_in_ok in Hq end. andb_hyps.
+    unfold group_ok. cbn [g_ws0 g_terms g_ws1]. rewrite wstext_ok by assumption. now andb_goal.
+  - unfold ws_ok in *. rewrite forallb_app. andb_goal; auto. now apply wstext_ok.
+Qed.
+Lemma nalts_ok alts : forall prev extra, lrel_ok prev = true -> forallb alt_ok alts = true -> ws_ok extra = true ->
+  wf_rel (fst (nalts prev alts extra)) = true /\ forallb wf_alt (snd (nalts prev alts extra)) = true.
+Proof.
+  induction alts as [|[[w1 w2] r] rest IH]; intros prev extra Hp Ha He; cbn [nalts].
+  - cbn [fst snd forallb]. split; [now apply nrel_ok|reflexivity].
+  - cbn [forallb] in Ha. apply andb_prop in Ha as [Ha1 Ha2]. unfold alt_ok in Ha1. cbn [fst snd] in Ha1.
+    apply andb_prop in Ha1 as [Ha1 Hr]. apply andb_prop in Ha1 as [Hw1 Hw2].
+    destruct (IH r extra Hr Ha2 He) as [I1 I2]. destruct (nalts r rest extra) as [r' more]. cbn [fst snd forallb] in *.
+    split; [apply nrel_ok; [exact Hp|now apply wstext_ok]|]. unfold wf_alt at 1. cbn [fst snd]. rewrite (wstext_ok _ Hw2), I1, I2. reflexivity.
+Qed.
+Lemma take_ws_ok b l : forallb (relem_ok b) l = true -> ws_ok (fst (take_ws l)) = true /\ forallb (relem_ok b) (snd (take_ws l)) = true.
+Proof.
+  induction l as [|x r IH]; [auto|]. intros H. destruct x as [w| | |]; try (split; [reflexivity|exact H]).
+  cbn [forallb relem_ok] in H. apply andb_prop in H as [Hw0 Hr]. destruct (IH Hr) as [I1 I2]. cbn [take_ws]. destruct (take_ws r) as [s r']. cbn [fst snd] in *.
+  split; [|exact I2]. unfold ws_ok in *. rewrite forallb_app. andb_goal; auto.
+  pose proof (wstext_ok [w]) as Hw. unfold wsl_ok, ws_ok in Hw. cbn [forallb wstext flat_map] in Hw. rewrite app_nil_r, Hw0 in Hw. now apply Hw.
+Qed.
+Lemma nentry_ok b e extra : lentry_ok e = true -> ws_ok extra = true -> wf_item b (nentry e extra) = true.
+Proof.
+  intros H He. rewrite lentry_ok_eq in H. apply andb_prop in H as [H Ht]. apply andb_prop in H as [Hf Ha]. unfold nentry.
+  destruct (nalts_ok (e_alts e) (e_first e) (wstext (e_trail e) ++ extra) Hf Ha) as [I1 I2].
+  { unfold ws_ok in *. rewrite forallb_app. andb_goal; auto. now apply wstext_ok. }
+  destruct (nalts (e_first e) (e_alts e) (wstext (e_trail e) ++ extra)) as [r alts]. cbn [fst snd wf_item] in *. now rewrite I1, I2.
+Qed.
+Lemma nseg_ok b sg : forallb (relem_ok b) sg = true -> wf_more b (nseg sg) = true.
+Proof.
+  intros H. destruct (take_ws_ok b sg H) as [H1 H2]. unfold nseg. destruct (take_ws sg) as [w rest]. cbn [fst snd] in *.
+  unfold wf_more. cbn [fst snd]. rewrite H1. cbn [andb].
+  destruct rest as [|x r]; [reflexivity|]. cbn [forallb] in H2. apply andb_prop in H2 as [Hx Hr]. destruct (take_ws_ok b r Hr) as [H3 _].
+  destruct x as [w0| |e|seg segs]; try reflexivity; cbn [nitem relem_ok] in *.
+  - now apply nentry_ok.
+  - cbn [wf_item]. andb_hyps. andb_goal; auto.
+Qed.
+Lemma segments_forall (p : relem -> bool) l : forallb p l = true -> Forall (fun sg => forallb p sg = true) (segments l).
+Proof.
+  induction l as [|x r IH]; [repeat constructor|]. cbn [forallb]. intros H. apply andb_prop in H as [Hx H0]. specialize (IH H0).
+  destruct (is_rc x) eqn:Ex.
+  - destruct x; try discriminate. cbn [segments]. constructor; [reflexivity|exact IH].
+  - destruct (segments_cons x r Ex) as (s & ss & E1 & E2). rewrite E2. rewrite E1 in IH. inversion IH; subst.
+    constructor; [|assumption]. cbn [forallb]. now andb_goal.
+Qed.
+Theorem wf_norm b l : lwf b l = true -> wf_rfield b (norm l) = true.
+Proof.
+  intros H. destruct (lwf_split _ _ H) as (Hok & _). pose proof (segments_forall _ _ Hok) as HF.
+  unfold norm. destruct (segments l) as [|s0 ss]; [reflexivity|]. inversion HF as [|? ? H0 Hs]; subst. cbn [map].
+  pose proof (nseg_ok b s0 H0) as Hn. destruct (nseg s0) as [w i]. unfold wf_more in Hn. cbn [fst snd] in Hn. andb_hyps.
+  unfold wf_rfield. cbn [f_lead f_first f_rest]. andb_goal; auto.
+  clear HF. induction Hs as [|sg ss' Hsg _ IH]; [reflexivity|]. cbn [map forallb]. now rewrite (nseg_ok b sg Hsg), IH.
+Qed.
+
+(* ------------------------------------------------------------------ norm: the same content *)
+Lemma rel_content_nrel r extra : rel_content (nrel r extra) = lrel_content r.
+Proof.
+  unfold rel_content, nrel, lrel_content. cbn [r_name r_qual r_ver r_archs r_profs]. f_equal.
+  - now destruct (l_qual r) as [[w q]|].
+  - destruct (l_ver r) as [[w v]|]; [|reflexivity]. reflexivity.
+  - now destruct (l_archs r) as [[w g]|].
+  - rewrite map_map. reflexivity.
+Qed.
+Lemma nalts_content alts : forall prev extra,
+  rel_content (fst (nalts prev alts extra)) :: map (fun wr => rel_content (snd wr)) (snd (nalts prev alts extra))
+  = lrel_content prev :: map (fun a => lrel_content (snd a)) alts.
+Proof.
+  induction alts as [|[[w1 w2] r] rest IH]; intros prev extra; cbn [nalts].
+  - cbn [fst snd map]. now rewrite rel_content_nrel.
+  - specialize (IH r extra). destruct (nalts r rest extra) as [r' more]. cbn [fst snd map] in *. now rewrite rel_content_nrel, IH.
+Qed.
+Lemma item_entries_nentry e extra : item_entries (nentry e extra) = [lentry_content e] /\ item_substvars (nentry e extra) = [].
+Proof.
+  unfold nentry. pose proof (nalts_content (e_alts e) (e_first e) (wstext (e_trail e) ++ extra)) as H.
+  destruct (nalts (e_first e) (e_alts e) (wstext (e_trail e) ++ extra)) as [r alts]. cbn [fst snd item_entries item_substvars] in *.
+  now rewrite H.
+Qed.
+Lemma all_ws_content r : forallb is_rw r = true -> flat_map relem_entries r = [] /\ flat_map relem_substvars r = [].
+Proof. induction r as [|x r IH]; [auto|]. cbn [forallb]. intros H. andb_hyps. destruct x; try discriminate. now apply IH. Qed.
+Lemma take_ws_content l : flat_map relem_entries l = flat_map relem_entries (snd (take_ws l)) /\
+                          flat_map relem_substvars l = flat_map relem_substvars (snd (take_ws l)).
+Proof.
+  induction l as [|x r IH]; [auto|]. destruct x; try (split; reflexivity). cbn [take_ws]. destruct (take_ws r) as [s r']. exact IH.
+Qed.
+Lemma nseg_content sg : seg_good false sg ->
+  item_entries (snd (nseg sg)) = flat_map relem_entries sg /\ item_substvars (snd (nseg sg)) = flat_map relem_substvars sg.
+Proof.
+  intros H. pose proof (good_shape sg H) as Hs. destruct (take_ws_content sg) as [-> ->]. unfold nseg.
+  destruct (take_ws sg) as [w rest]. cbn [fst snd] in *.
+  destruct Hs as [|x r Hx Hr]; [auto|]. destruct (all_ws_content r Hr) as [R1 R2].
+  destruct x as [w0| |e|seg segs]; try discriminate; cbn [nitem flat_map relem_entries relem_substvars]; rewrite R1, R2.
+  - apply item_entries_nentry.
+  - auto.
+Qed.
+Lemma segments_content l : forall s0 ss, segments l = s0 :: ss ->
+  flat_map relem_entries l = flat_map (flat_map relem_entries) (s0 :: ss) /\
+  flat_map relem_substvars l = flat_map (flat_map relem_substvars) (s0 :: ss).
+Proof.
+  induction l as [|x r IH]; intros s0 ss E.
+  - cbn in E. injection E as <- <-. auto.
+  - destruct (is_rc x) eqn:Ex.
+    + destruct x; try discriminate. cbn [segments] in E. injection E as <- <-.
+      destruct (segments r) as [|s1 ss1] eqn:E1.
+      * exfalso. destruct r as [|y r']; [discriminate|]. cbn [segments] in E1. destruct y; try discriminate; destruct (segments r'); discriminate.
+      * destruct (IH _ _ eq_refl) as [I1 I2]. cbn [flat_map relem_entries relem_substvars app] in *. auto.
+    + destruct (segments_cons x r Ex) as (s & ss' & E1 & E2). rewrite E2 in E. injection E as <- <-.
+      destruct (IH _ _ E1) as [I1 I2]. cbn [flat_map] in *. rewrite I1, I2, <- !app_assoc. auto.
+Qed.
+Theorem rcontent_norm b l : lwf b l = true -> rcontent (norm l) = lcontent l.
+Proof.
+  intros H. destruct (lwf_split _ _ H) as (_ & s & Hs). destruct (segments_good l false s Hs) as (s0 & ss & E & G0 & G).
+  unfold lcontent. destruct (segments_content l s0 ss E) as [-> ->]. unfold norm. rewrite E. cbn [map].
+  destruct (nseg_content s0 G0) as [H1 H2]. destruct (nseg s0) as [w i]. cbn [snd] in *.
+  unfold rcontent, f_items. cbn [f_first f_rest flat_map]. rewrite H1, H2. rewrite map_map.
+  assert (HG : flat_map item_entries (map (fun x => snd (nseg x)) ss) = flat_map (flat_map relem_entries) ss /\
+               flat_map item_substvars (map (fun x => snd (nseg x)) ss) = flat_map (flat_map relem_substvars) ss).
+  { clear E. induction G as [|sg ss' Hg _ IH]; [auto|]. destruct IH as [I1 I2]. destruct (nseg_content sg Hg) as [K1 K2].
+    cbn [map flat_map]. now rewrite I1, I2, K1, K2. }
+  destruct HG as [-> ->]. reflexivity.
+Qed.
